@@ -6,11 +6,13 @@ CONSTANTS
   SModelToks = {"S1"}
   CalToks = {"C1"}
   PNoiseToks = {"pnA", "pnB"}
+  AltModelToks = {"M3"}
+  AltPNoiseToks = {"pnC"}
   SNoiseToks = {"snA", "snB"}
   ConfigVals <- cConfigVals
   BogusKeys = {"bogus", "max_dt", "processnoise"}
   MaxCmds = 1000
-  MaxFits = 1000
+  MaxFits = 2000
   EmitOn = FALSE
 CONSTRAINT Reach
 POSTCONDITION Post
